@@ -3,7 +3,7 @@ import re
 from runner import Stream
 import vlib, gens
 
-PROP_MODULES = ["Vlsp.Props.C02"]
+PROP_MODULES = ["Vlsp.Props.C02", "Vlsp.Props.C02Gha", "Vlsp.Props.C02Go"]
 EXTRA_SCAN = ["Vlsp/Spec/Ranges.lean"]
 RULE = ("(a) semver parse/Ord lattice; (b) per ecosystem: specs from the range grammar (all operators, 1-3 component "
         "operands, wildcards, hyphen, AND/OR, layout) + junk stream, against the version lattice (components {0,1,2,10}, "
